@@ -14,7 +14,7 @@ PICK = {"C05": ("zz_add.n2.alias0", "zz_add.n2.alias1", "zz_mod.n2.alias0", "ww_
         "C03": ("brng_inc", "botp.mac32"),
         "C12": ("date_yymmdd",),
         "C20": ("step", "history_inductive"),
-        "C01": ("block.g", "keyexpand.k24", "modes.cbc.cnt33.k32", "modes.ctr.cnt33.k32", "modes.mac.cnt17", "fmt.table")}
+        "C01": ("block.g", "keyexpand.k24", "modes.cbc.cnt33.k32", "modes.ctr.cnt33.k32", "modes.mac.cnt17", "fmt.table", "lcl.addbitsize", "modes.mulc", "modes.bde.cnt32.k32", "modes.wbl.cnt64.k32")}
 GROUPS = []
 for pid, names in PICK.items():
     plan = _load(pid)
